@@ -19,7 +19,10 @@ SPEC_FORMS = ('old', 'forall', 'exists', 'implies', 'ite', 'pow2', 'typeis', 'is
               'U', 'app', 'splice', 'Bst', 'appb', 'Bin', 'appbin', 'is_binstr', 'binval',
               'prefix_same', 'outside_same', 'chars_eq', 'allspaces', 'allchar', 'is_bool', 'oval',
               'isdigits', 'str2int', 'same_dict', 'dval', 'gh', 'ghat', 'same_ghosts', 'npow2', 'asref', 'allzero_bytes', 'chars', 'entry', 'is_ref', 'refof', 'aslist_vv',
-              'at_exit', 'has_exit', 'is_slice', 'slice_part', 'ndistinct', 'lc_idx', 'lc_inv', 'aslist_v', 'lc_map', 'at')
+              'at_exit', 'has_exit', 'is_slice', 'slice_part', 'ndistinct', 'lc_idx', 'lc_inv', 'aslist_v', 'lc_map', 'at', 'aslist_i', 'uprefix_same')
+
+
+EXTRA_SPEC_FORMS = {}
 
 
 def eval_call(eng, e, st, ctx):
@@ -35,6 +38,11 @@ def eval_call(eng, e, st, ctx):
             return
         if name in SPEC_FORMS and (ctx.spec or name in ('pow2',) or (ctx.module or '').startswith('spec.')):
             yield st, spec_form(eng, e, st, ctx)
+            return
+        if name in EXTRA_SPEC_FORMS and ctx.spec:
+            # spec forms contributed by the class table (contracts/classes.py): fn(eng, ctx, st, [argument values]) -> value
+            for st2, args in eng.ev_list(e.args, st, ctx):
+                yield st2, EXTRA_SPEC_FORMS[name](eng, ctx, st2, args)
             return
         if name in eng.reg.predicates and ctx.spec:
             for st2, args in eng.ev_list(e.args, st, ctx):
@@ -501,6 +509,10 @@ def spec_form(eng, e, st, ctx):
     if name == 'aslist_v':
         x = ev1(a[0])
         return SV(ListT(VAL), Val.rval(eng.coerce(x, VAL).z))
+    if name == 'aslist_i':
+        # the list of ints held in a dynamically typed slot (the descriptor ids of section 3)
+        x = ev1(a[0])
+        return SV(ListT(INT), Val.rval(eng.coerce(x, VAL).z))
     if name == 'is_slice':
         v = eng.coerce(ev1(a[0]), VAL).z
         return SV(BOOL, z3.And(Val.is_vref(v), Val.rval(v) > 0, eng.typeis(st, Val.rval(v), 'PySlice')))
@@ -729,6 +741,15 @@ def bf_prefix_same(eng, st, a):
     return SV(BOOL, _frame_before(a[0].z, a[1].z, a[2].z))
 
 
+def bf_uprefix_same(eng, st, a):
+    """every unsigned field lying entirely before bit `upto` reads the same in b2 as in b1 (the U part of prefix_same: follows from
+    prefix_same up to any later position and from outside_same over any range that starts at or after `upto`)"""
+    b2, b1, upto = [x.z for x in a]
+    q = fresh('q', z3.IntSort())
+    m = fresh('m', z3.IntSort())
+    return SV(BOOL, z3.ForAll([q, m], z3.Implies(z3.And(0 <= q, m >= 0, q + m <= upto), U_f(b2, q, m) == U_f(b1, q, m)), patterns=[U_f(b2, q, m)]))
+
+
 def bf_outside_same(eng, st, a):
     b2, b1, lo, hi = [x.z for x in a]
     q = fresh('q', z3.IntSort())
@@ -749,7 +770,7 @@ def bf_allzero_bytes(eng, st, a):
     return SV(BOOL, z3.InRe(a[0].z, z3.Star(z3.Re(S('\x00')))))
 
 
-BIT_FORMS = {'allzero_bytes': bf_allzero_bytes, 'prefix_same': bf_prefix_same, 'outside_same': bf_outside_same, 'allspaces': bf_allspaces,
+BIT_FORMS = {'uprefix_same': bf_uprefix_same, 'allzero_bytes': bf_allzero_bytes, 'prefix_same': bf_prefix_same, 'outside_same': bf_outside_same, 'allspaces': bf_allspaces,
              'allchar': bf_allchar, 'U': bf_U, 'app': bf_app, 'splice': bf_splice, 'Bst': bf_Bst, 'appb': bf_appb, 'Bin': bf_Bin,
              'appbin': bf_appbin, 'is_binstr': bf_is_binstr}
 
